@@ -23,9 +23,12 @@
  *                polled also while not reading; q then resets (unread data at the peer)
  *   beh:  S<tok> T C   inside the k-th read callback
  *   allocs: <len> | n<len> (base NULL), k-th alloc callback, cyclically
- * output: <trace> ; <oracle log>
+ * output: <trace> ; <oracle log> ; <msghdr log>
+ *   msghdr log: for every recvmsg on the stream, as offered by libuv: msg_controllen,
+ *   msg_control != NULL, msg_iovlen, msg_flags on entry, and MSG_CTRUNC on return
  *   trace tokens (ocaml/drv_c06.ml prints the same, except the upper-case
- *   harness-only tokens W<total> G<total> H Q U K M B<n> V<ret> Y<status> O<0/1>;
+ *   harness-only tokens W<total> G<total> H Q U K M B<n> V<ret> Y<status> O<0/1> D<n>;
+ *   D = uv_pipe_pending_count() after the call (ipc),
  *   O = POLLOUT requested when epoll_pwait was called, V = uv_write returned, Y = write_cb status,
  *   G = that write carried a descriptor, B<n> = n bytes were still readable at this UV_EOF):
  *   P<raw>  A<id>,<suggested>,<base>,<len>  k<len>:<ans>@<off>  r<tok>:<nread>:<buf>:<off>,<len>
@@ -63,6 +66,7 @@ static char* beh[MAXBEH]; static int nbeh, cbn;
 static struct { int base_ok; size_t len; } al[MAXAL]; static int nal, alloc_n;
 static char** script; static int nscript, script_pos;
 static FILE* olog; static char* olog_buf; static size_t olog_len;
+static FILE* mlog; static char* mlog_buf; static size_t mlog_len;
 static unsigned long long peer_written, kpos, delivered;
 /* the one buffer that may be outstanding */
 static struct { int live; int id; char* base; size_t len; } out;
@@ -118,12 +122,17 @@ ssize_t __wrap_read(int fd, void* buf, size_t n) {
 
 ssize_t __wrap_recvmsg(int fd, struct msghdr* m, int flags) {
   size_t cap, n; int e; ssize_t r; struct msghdr mm; struct iovec iv;
-  if (!g_active || fd != g_fd || m->msg_iovlen != 1) return __real_recvmsg(fd, m, flags);
+  if (!g_active || fd != g_fd) return __real_recvmsg(fd, m, flags);
+  /* the msghdr as libuv offers it, on every call: control space is value-result */
+  fprintf(mlog, "%zu,%d,%zu,%d", (size_t) m->msg_controllen, m->msg_control != NULL,
+          (size_t) m->msg_iovlen, m->msg_flags);
+  if (m->msg_iovlen != 1) { fprintf(mlog, ",0 "); return __real_recvmsg(fd, m, flags); }
   n = m->msg_iov[0].iov_len;
-  if (scripted(n, &cap, &e)) { log_fail(n, e); errno = e; return -1; }
+  if (scripted(n, &cap, &e)) { fprintf(mlog, ",0 "); log_fail(n, e); errno = e; return -1; }
   mm = *m; iv = m->msg_iov[0]; iv.iov_len = cap; mm.msg_iov = &iv;
   r = __real_recvmsg(fd, &mm, flags); e = errno;
   m->msg_controllen = mm.msg_controllen; m->msg_flags = mm.msg_flags;
+  fprintf(mlog, ",%d ", (r >= 0 && (mm.msg_flags & MSG_CTRUNC)) ? 1 : 0);
   log_result(n, cap, r, e);
   errno = e;
   return r;
@@ -288,7 +297,10 @@ static void do_ops(char* ops, int in_cb) {
     default: model_op = 0; break;
     }
     if (!in_cb && model_op)
+    {
       printf("f%d%d%d ", uv_is_readable(&h.stream), uv_is_active(&h.handle), uv_is_closing(&h.handle));
+      if (g_ipc && !g_closing) printf("D%d ", uv_pipe_pending_count(&h.pipe));   /* descriptors received so far */
+    }
   }
 }
 
@@ -318,7 +330,7 @@ static void run_case(char* line) {
   char* sec[5]; int nsec = 0, i, fds[2]; char* p = line; char* save; char* t;
   sec[nsec++] = p;
   while (nsec < 5 && (p = strchr(p, ';')) != NULL) { *p++ = 0; sec[nsec++] = p; }
-  if (nsec < 5) { printf("badcase ; \n"); return; }
+  if (nsec < 5) { printf("badcase ; ; \n"); return; }
   g_ipc = atoi(sec[0]) != 0 && !tcp_mode;
   nbeh = 0; cbn = 0;
   for (p = sec[2]; p && nbeh < MAXBEH; ) {
@@ -340,9 +352,10 @@ static void run_case(char* line) {
       script[nscript++] = t;
     } }
   olog = open_memstream(&olog_buf, &olog_len);
+  mlog = open_memstream(&mlog_buf, &mlog_len);
   g_quiet = 0; g_closing = 0; nwr = 0; peer_written = 0; kpos = 0; delivered = 0; out.live = 0; out.base = NULL; ov_kind = 0;
 
-  if (make_pair(fds)) { printf("nosocket ; \n"); return; }
+  if (make_pair(fds)) { printf("nosocket ; ; \n"); return; }
   g_fd = fds[0]; g_peer = fds[1];
   fcntl(g_peer, F_SETFL, fcntl(g_peer, F_GETFL) | O_NONBLOCK);
   uv_loop_init(&loop);
@@ -371,9 +384,9 @@ static void run_case(char* line) {
   if (g_peer >= 0) close(g_peer);
   g_fd = g_peer = -1;
   if (out.base) { free(out.base); out.base = NULL; }
-  fclose(olog);
-  printf("; %s\n", olog_buf);
-  free(olog_buf); free(script);
+  fclose(olog); fclose(mlog);
+  printf("; %s; %s\n", olog_buf, mlog_buf);
+  free(olog_buf); free(mlog_buf); free(script);
 }
 
 static void on_alarm(int sig) {
